@@ -65,11 +65,71 @@ def _hook(kind, idx, script):
             raise ValueError('%s of layer %d' % (kind, idx))
         if out == 'raise_unhashable':
             raise UnhashableError('%s of layer %d' % (kind, idx))
+        if isinstance(out, str) and out.startswith('raise_odd:'):
+            raise odd_exception(out[10:], '%s of layer %d' % (kind, idx))
         if out == 'notimpl':
             raise NotImplementedError
         if out == 'kbd':
             raise KeyboardInterrupt
     return hook
+
+
+class BadStrError(Exception):
+    """An exception whose text cannot be produced."""
+    def __str__(self):
+        raise RuntimeError('str() of the exception failed')
+
+
+class BadReprError(Exception):
+    def __repr__(self):
+        raise RuntimeError('repr() of the exception failed')
+    __str__ = __repr__
+
+
+def odd_exception(shape, text):
+    """Exception objects of unusual but legal shape; the runner has to report them like any other."""
+    if shape == 'cycle':
+        # a cyclic explicit cause chain (`except Wrapped as e: raise e.__cause__ from e`)
+        a, b = ValueError(text), RuntimeError('wrapped ' + text)
+        a.__cause__, b.__cause__ = b, a
+        return a
+    if shape == 'ctxcycle':
+        a, b = ValueError(text), RuntimeError('context of ' + text)
+        a.__context__, b.__context__ = b, a
+        return a
+    if shape == 'selfcause':
+        a = ValueError(text)
+        a.__cause__ = a
+        return a
+    if shape == 'deep':
+        # a retry loop that chains every attempt to the previous one
+        e = ValueError(text + ' attempt 0')
+        for k in range(1, 3000):
+            n = ValueError('%s attempt %d' % (text, k))
+            n.__cause__ = e
+            e = n
+        return e
+    if shape == 'deepctx':
+        e = ValueError(text + ' attempt 0')
+        for k in range(1, 1500):
+            n = ValueError('%s attempt %d' % (text, k))
+            n.__context__ = e
+            e = n
+        return e
+    if shape == 'badstr':
+        return BadStrError(text)
+    if shape == 'badrepr':
+        return BadReprError(text)
+    if shape == 'group':
+        return ExceptionGroup(text, [ValueError(1), ExceptionGroup('inner', [KeyError('k'), BadStrError('x')])])
+    if shape == 'notes':
+        e = ValueError(text)
+        e.add_note('a note \x01 with control characters')
+        e.__notes__.append(42)
+        return e
+    if shape == 'args':
+        return OSError(2, text, 'file\x00name')
+    raise AssertionError(shape)
 
 
 class UnhashableError(Exception):
@@ -172,6 +232,8 @@ def _act(self, out):
         self.fail(out[1])
     if out == 'error_unhashable':
         raise UnhashableError('scripted unhashable error')
+    if isinstance(out, str) and out.startswith('error_odd:'):
+        raise odd_exception(out[10:], 'scripted odd error')
     raise AssertionError('unknown outcome %r' % (out,))
 
 
